@@ -191,6 +191,9 @@ func init() {
 			if !errors.Is(err, mqtt.ErrMax) {
 				e.violate("C17", "slot-limit", "request %d returned %v, want ErrMax", slots+1, err)
 			}
+			if mqtt.IsDeny(err) {
+				e.violate("C09", "valid-denied#slot-limit", "a valid Subscribe beyond the slot limit was refused as IsDeny: %v", err)
+			}
 		case <-time.After(5 * time.Second):
 			e.violate("C17", "slot-limit-blocks", "request %d blocks instead of returning ErrMax", slots+1)
 		}
